@@ -4,9 +4,11 @@ VARIABLES done
 M(name, payload) == [name |-> name, size |-> Len(payload), data |-> << Lit(payload) >>, kind |-> Uncompressed]
 Base == << << M(<<97>>, <<11,12,13,14,15>>), M(<<98,98>>, <<21,22>>) >>,
            << M(<<97,46,116>>, <<>>), M(<<99>>, <<31,32,33>>), M(<<100,100,100>>, <<41,42,43,44>>) >> >>
-Calls(n) == << [call |-> "GetCount", i |-> 0] >> \o Flatten([j \in 1..(n + 2) |-> LET i == j - 1 IN << [call |-> "GetName", i |-> i], [call |-> "GetSize", i |-> i],
+\* two call scripts per image: members in ascending and in descending order, so that a refused call is followed by calls on
+\* other (intact) members in both directions
+CallsDir(n, up) == << [call |-> "GetCount", i |-> 0] >> \o Flatten([j \in 1..(n + 2) |-> LET i == IF up THEN j - 1 ELSE n + 2 - j IN << [call |-> "GetName", i |-> i], [call |-> "GetSize", i |-> i],
                  [call |-> "OpenStream", i |-> i], [call |-> "GetName", i |-> i], [call |-> "Extract", i |-> i], [call |-> "OpenStream", i |-> i] >>])
-Emit(id, img, n) == PrintT("S|" \o ToJson([id |-> id, steps |-> << [op |-> "robust_vol", image |-> img, calls |-> Calls(n)] >>]))
+Emit(id, img, n) == \A up \in BOOLEAN : PrintT("S|" \o ToJson([id |-> <<id, up>>, steps |-> << [op |-> "robust_vol", image |-> img, calls |-> CallsDir(n, up)] >>]))
 Init == done = FALSE
 Next == /\ ~done /\ done' = TRUE
         /\ \A bi \in 1..Len(Base) :
